@@ -40,7 +40,19 @@ GenCmd(st, sd, t) ==
         scen == sd % 2 = 0 /\ ph >= 11 /\ Cur(st).path # ""
         (* in the scripts with seed = 3 mod 4: three buffers, the current one modified, then :ew to the one in the third slot *)
         scew == sd % 4 = 3 /\ ph >= 3 /\ ph <= 8
-    IN IF scew /\ ph \in {3, 4, 5} THEN [k |-> "e", path |-> AllPaths[ph - 2], force |-> TRUE]
+        (* seed = 1 mod 4: autowrite on; a modified buffer that is not current; both files rewritten by another program, the
+           current one re-read afterwards (so its time stamp is the later one); quit must refuse to overwrite the other file *)
+        scaw == sd % 4 = 1 /\ ph >= 3 /\ ph <= 11
+    IN IF scaw /\ ph = 3 THEN [k |-> "se", opt |-> "aw", val |-> TRUE]
+       ELSE IF scaw /\ ph = 4 THEN [k |-> "e", path |-> "f1", force |-> TRUE]
+       ELSE IF scaw /\ ph = 5 THEN [k |-> "a", n |-> 1]
+       ELSE IF scaw /\ ph = 6 THEN [k |-> "e", path |-> "f2", force |-> TRUE]
+       ELSE IF scaw /\ ph = 7 THEN [k |-> "ext", path |-> "f1"]
+       ELSE IF scaw /\ ph = 8 THEN [k |-> "ext", path |-> "f2"]
+       ELSE IF scaw /\ ph = 9 THEN [k |-> "e", path |-> "", force |-> TRUE]
+       ELSE IF scaw /\ ph = 10 THEN [k |-> "q", force |-> FALSE, fault |-> ""]
+       ELSE IF scaw /\ ph = 11 THEN [k |-> "se", opt |-> "aw", val |-> FALSE]
+       ELSE IF scew /\ ph \in {3, 4, 5} THEN [k |-> "e", path |-> AllPaths[ph - 2], force |-> TRUE]
        ELSE IF scew /\ ph = 6 THEN [k |-> "a", n |-> 1]
        ELSE IF scew /\ ph = 7 THEN [k |-> "e", path |-> AllPaths[1], force |-> FALSE, ew |-> TRUE]
        ELSE IF scew /\ ph = 8 THEN [k |-> "w", path |-> "", whole |-> TRUE, beg |-> 0, end |-> 0, force |-> TRUE, fault |-> ""]
